@@ -29,7 +29,8 @@ RULE = ("seeded clean motif networks (cliques 2-4, 4-/5-cycles, 1-3 topologies, 
         "swaps, draw schedules uniform or mixed (each draw with prob. 0.2-0.4 forced to first/last/previous index) and "
         "acceptance floats uniform / 0.0 / 1-2^-53 / extreme / mixed, aborts at a scheduler-chosen draw, parameter "
         "dictionaries with default limits; non-trivial = at least one accepted swap was observed; distinct = distinct "
-        "execution digests; distinct_states = distinct final rewired graphs (edge set with annotations)")
+        "execution digests; 30% of the histories use ONE rewiring object throughout (limit raised through the public setter, "
+        "rewire() called again); distinct_states = distinct final rewired graphs (edge set with annotations)")
 ASSUMPTIONS = ["prefix histories: rewire() is a pure function of the decision stream, so limit L+1 extends limit L by one swap",
                "decision budget exhaustion is inconclusive: rewire() has no termination guarantee and no property claims one",
                "clean networks come from a direct constructor (stub) through the library's own edge-list -> network conversion"]
